@@ -166,6 +166,12 @@ pub struct Opts {
     pub max_wall_s: u64,
     /// child mode: write a machine-readable summary here instead of evidence / VIOLATION lines
     pub child_json: Option<PathBuf>,
+    /// child mode: only run indices congruent to .0 modulo .1
+    pub stride: Option<(u64, u64)>,
+    /// child mode: write the index of the run about to execute here (write-ahead, for abort attribution)
+    pub wal: Option<PathBuf>,
+    /// enforce Check::required_probes
+    pub check_probes: bool,
 }
 
 #[derive(Clone, Debug, Deserialize)]
@@ -253,8 +259,15 @@ pub fn run_batch<C: Check>(check: &C, opts: &Opts) -> BatchResult<C::Scenario> {
                         break;
                     }
                     let i = next.fetch_add(1, Ordering::Relaxed);
+                    let i = match opts.stride {
+                        Some((k, j)) => k + i * j,
+                        None => i,
+                    };
                     if i >= total {
                         break;
+                    }
+                    if let Some(w) = &opts.wal {
+                        let _ = std::fs::write(w, i.to_string());
                     }
                     if start.elapsed().as_secs() > opts.max_wall_s {
                         stop.store(true, Ordering::Relaxed);
@@ -426,20 +439,18 @@ pub fn child_phase(name: &str, bin: &str, args: &[String], envs: &[(&str, &str)]
         cmd.env(k, v);
     }
     let status = cmd.status();
-    let mut ph = ExtraPhase {
-        name: name.to_string(),
-        evaluations: 0,
-        distinct: 0,
-        info: Value::Null,
-        found: Vec::new(),
-        error: None,
-    };
+    let mut ph = ExtraPhase { name: name.to_string(), ..Default::default() };
     match status {
         Ok(s) if s.code() == Some(0) || s.code() == Some(1) => match std::fs::read_to_string(&tmp) {
             Ok(txt) => {
                 let v: Value = serde_json::from_str(&txt).unwrap_or(Value::Null);
                 ph.evaluations = v["evaluations"].as_u64().unwrap_or(0);
                 ph.distinct = v["distinct"].as_u64().unwrap_or(0);
+                ph.runs = v["runs"].as_u64().unwrap_or(0);
+                ph.steps = v["steps"].as_u64().unwrap_or(0);
+                ph.faults = serde_json::from_value(v["faults"].clone()).unwrap_or_default();
+                ph.probes = serde_json::from_value(v["probes"].clone()).unwrap_or_default();
+                ph.groups = serde_json::from_value(v["groups"].clone()).unwrap_or_default();
                 if let Some(a) = v["found"].as_array() {
                     for f in a {
                         if let Ok(viol) = serde_json::from_value::<Violation>(f["violation"].clone()) {
@@ -451,17 +462,26 @@ pub fn child_phase(name: &str, bin: &str, args: &[String], envs: &[(&str, &str)]
             },
             Err(e) => ph.error = Some(format!("child summary unreadable: {}", e)),
         },
-        Ok(s) => ph.error = Some(format!("child {} exited with {:?}", bin, s.code())),
+        Ok(s) => {
+            ph.error = Some(format!("child {} exited with {:?}", bin, s.code()));
+            ph.info = json!({"abnormal_exit": format!("{:?}", s)});
+        },
         Err(e) => ph.error = Some(format!("child {} could not be started: {}", bin, e)),
     }
     let _ = std::fs::remove_file(&tmp);
     ph
 }
 
+#[derive(Default)]
 pub struct ExtraPhase {
     pub name: String,
     pub evaluations: u64,
     pub distinct: u64,
+    pub runs: u64,
+    pub steps: u64,
+    pub faults: BTreeMap<String, u64>,
+    pub probes: BTreeMap<String, u64>,
+    pub groups: BTreeMap<String, u64>,
     pub info: Value,
     /// (violation, replay scenario json) found by the phase
     pub found: Vec<(Violation, Value)>,
@@ -539,6 +559,7 @@ pub fn drive<C: Check>(check: &C, opts: &Opts, extra: Vec<ExtraPhase>) -> i32 {
         println!("VIOLATION property={} replay={}", check.id(), p.display());
         exit = 1;
     }
+    let mut res = res;
     let mut phase_info = Vec::new();
     let mut extra_evals = 0u64;
     let mut extra_distinct = 0u64;
@@ -546,6 +567,17 @@ pub fn drive<C: Check>(check: &C, opts: &Opts, extra: Vec<ExtraPhase>) -> i32 {
     for (pi, ph) in extra.into_iter().enumerate() {
         extra_evals += ph.evaluations;
         extra_distinct += ph.distinct;
+        res.runs += ph.runs;
+        res.steps += ph.steps;
+        for (k, v) in &ph.faults {
+            *res.faults.entry(k.clone()).or_insert(0) += v;
+        }
+        for (k, v) in &ph.probes {
+            *res.probes.entry(k.clone()).or_insert(0) += v;
+        }
+        for (k, v) in &ph.groups {
+            *res.groups.entry(k.clone()).or_insert(0) += v;
+        }
         for (n, (v, sc)) in ph.found.iter().enumerate() {
             violations += 1;
             let rf = ReplayFile {
@@ -571,7 +603,7 @@ pub fn drive<C: Check>(check: &C, opts: &Opts, extra: Vec<ExtraPhase>) -> i32 {
     }
     // reach self-check: a probe stuck at zero means the workload must change — harness error
     let mut missing = Vec::new();
-    if !res.truncated && opts.runs.is_none() {
+    if !res.truncated && opts.check_probes {
         for p in check.required_probes(opts.tier) {
             if res.probes.get(p).copied().unwrap_or(0) == 0 && res.faults.get(p).copied().unwrap_or(0) == 0 {
                 missing.push(p.to_string());
@@ -592,7 +624,7 @@ pub fn drive<C: Check>(check: &C, opts: &Opts, extra: Vec<ExtraPhase>) -> i32 {
                 "samples": res.samples,
                 "simulated_runs": res.runs,
                 "runs_per_hour": if res.wall_s > 0.0 { (res.runs as f64 / res.wall_s * 3600.0) as u64 } else { 0 },
-                "seeds": format!("run i of this check uses stream split(VERIF_SEED={}, \"{}\", i), i in 0..{}", opts.seed, check.id(), res.runs),
+                "seeds": format!("run i of this check uses stream split(VERIF_SEED={}, \"{}\", i); {} runs in total (including runs executed by child phases)", opts.seed, check.id(), res.runs),
                 "simulated_time": format!("{} logical steps (API operations, RNG calls, oracle evaluations); the library has no clock, so there is no simulated wall time", res.steps),
                 "logical_steps": res.steps,
                 "faults_fired": res.faults,
